@@ -40,6 +40,7 @@ CONCLUSION = {
     "snapshot-batchget=base-overlay": "C07_snapshot_batch_get: BufferSnapshotBatchGetter = staging-blind view of the buffer overlaid on the snapshot, snapshot asked exactly for the keys the view does not hold",
     "snapshot-object=view-at-creation-or-invalid": "C07_snapshot_seq: a MemBufferSnapshot object used after further operations answers with the staging-blind view of its creation, or refuses (SnapshotSeqNo moved)",
     "dirty-is-monotone": "C07_dirty_monotone: Dirty() never goes back to false",
+    "union-iter=overlay-merge": "C07_iter_contract: UnionIter over two iterators that are strictly sorted in the iteration direction yields the sorted overlay (buffer entry wins, buffered tombstone hides); with a failing inner iterator a prefix of it, then the error",
     "history-head=buffered-value": "SelectValueHistory starts at the buffered value; a key without value has no history",
     "inspect-stage-covers-changes": "InspectStage(h) reports every key whose buffered value changed since Staging h, each once",
 }
@@ -108,6 +109,8 @@ def main(tier, replay):
                         distinct.add(hash((target, f[3], tuple(f[4:]))))
                     elif f[3] in ("cleanup", "revert", "release"):
                         distinct.add(hash((target, f[1], f[2])))
+                elif f[0] == "M":
+                    distinct.add(hash(("merge", tuple(f[2:]))))
                 elif f[0] == "FAIL":
                     fails.append(f)
                 elif f[0] == "PSTAT":
@@ -165,7 +168,7 @@ def main(tier, replay):
                rule="random programs (seeded) of set/delete (with flag ops, some probing a stale buffer iterator)/update-flags/get/get-flags/len+size/batch-get(with duplicate keys)/iter/iter-reverse/iter-with-flags/snapshot get+iter/history/inspect-stage/limits/staging/release/cleanup/checkpoint/revert, "
                     "~40 ops (every 10th 120), key pool of 3-11 adversarial keys per program (empty key, 00/ff runs, prefix chains, a 23-byte common prefix), values of length 1-3 "
                     "(same-length overwrites frequent, in place or appended depending on staging position and lastCheckpoint) and some of 1.2-4 KB (cross arena blocks), arbitrary bounds incl. lower>upper; directed F03 regression programs (same-length overwrite after a checkpoint, plain / in a level / after release / two checkpoints) on every target; "
-                    "targets: KVUnionStore+ART, KVUnionStore+RBT over a scripted snapshot, real KVTxn over mocktikv (several regions with adversarial split keys, region splits in the middle of a program, open-ended reverse scans, repeated batch gets on a warm snapshot cache) with committed base data; real PipelinedMemDB with a scripted flush function (flush start / completion / wait schedules, batch-get cache); "
+                    "targets: KVUnionStore+ART, KVUnionStore+RBT over a scripted snapshot, real KVTxn over mocktikv (several regions with adversarial split keys, region splits in the middle of a program, open-ended reverse scans, repeated batch gets on a warm snapshot cache) with committed base data; UnionIter driven directly with scripted iterators (empty snapshot values, broken sortedness contract, failing inner iterator); real PipelinedMemDB with a scripted flush function (flush start / completion / wait schedules, batch-get cache); "
                     "distinct_nontrivial = distinct (target, read op, arguments, non-empty result) tuples plus effective cleanup/revert/release executions",
                samples=samples, traces_validated_against_impl=stats.get("programs", 0), programs=stats.get("programs", 0),
                ops_compared_with_model=stats.get("cases", 0), oracle_evaluations={k: n for k, (n, _) in pstat.items()},
